@@ -138,7 +138,7 @@ def gen_models(rng, flavour):
         used.add((g, n))
         args = {}
         for a in rng.sample(ARG_NAMES, rng.choice([1, 2, 3])):
-            r = rng.random()
+            r = rng.random() if flavour != "vectors" else rng.choice([0.1, 0.8, 0.8])
             args[a] = (rng.randrange(100) if r < 0.5 else rng.randrange(100) / 4 if r < 0.7
                        else [rng.randrange(9), rng.randrange(9)] if r < 0.9 else "word")
         models.append({"group": g, "name": n, "args": args})
@@ -179,7 +179,7 @@ def gen_params(rng, models, mode, flavour, max_runs):
     params = []
     budget = max_runs
     for key in chosen:
-        enabled = rng.random() < 0.8
+        enabled = rng.random() < (0.8 if flavour != "vectors" else 1.0)
         if mode == "custom":
             if key.startswith("detector."):
                 params.append({"key": key, "decl": "_", "enabled": enabled, "width": None})
@@ -188,7 +188,7 @@ def gen_params(rng, models, mode, flavour, max_runs):
                 params.append({"key": key, "decl": "_" if w is None else ["_"] * w, "enabled": enabled, "width": w})
             continue
         nmax = max(1, min(4, budget)) if mode == "product" else 4
-        n = rng.randrange(1, nmax + 1)
+        n = rng.randrange(1, nmax + 1) if flavour != "vectors" else min(nmax, rng.choice([2, 3]))
         if enabled and mode == "product":
             budget = max(1, budget // n)
         if key.startswith("detector."):
@@ -234,7 +234,7 @@ def gen_table(rng, params):
 def gen_case(rng, mode=None, with_dask=None, flavour=None, max_runs=16):
     mode = mode or rng.choice(["product", "product", "sequential", "custom"])
     if flavour is None:
-        flavour = rng.choice(["plain", "plain", "plain", "two_models_same_arg", "same_model_two_groups", "field_vs_arg"])
+        flavour = rng.choice(["plain", "plain", "vectors", "two_models_same_arg", "same_model_two_groups", "field_vs_arg"])
     models = gen_models(rng, flavour)
     params = gen_params(rng, models, mode, flavour, max_runs)
     case = {
@@ -290,7 +290,7 @@ def build_objects(case, delay_ms=0.0, extra=None):
 def write_table(case, folder):
     import numpy as np
 
-    rows = [list(r) + [9.0] * case.get("extra_cols", 0) for r in case["table"]]
+    rows = [[7.0] * case.get("col_start", 0) + list(r) + [9.0] * case.get("extra_cols", 0) for r in case["table"]]
     if case.get("table_format") == "txt" and len(rows[0]) >= 2:
         path = os.path.join(folder, "table.txt")
         with open(path, "w") as f:
@@ -432,29 +432,37 @@ def extract_entries(ds, n_slots):
     return {"dims": [str(d) for d in pdims], "entries": entries}
 
 
-def exec_log(case):
-    """per executed run: the fingerprint vector reconstructed from the probe log (in execution order)"""
+def exec_log(case, extra_slots=0):
+    """per executed run: the fingerprint vector reconstructed from the probe log, in *completion* order
+    (records are grouped per thread: a worker thread executes its runs one after the other)"""
     import obsprobes
 
-    per = len(case["models"]) + (1 if case["fields"] else 0)
+    per = len(case["models"]) + (1 if case["fields"] else 0) + extra_slots
     recs = list(obsprobes.LOG)
-    out = []
-    if per == 0 or len(recs) % per:
+    if per == 0:
         return {"ragged": len(recs)}
-    for i in range(0, len(recs), per):
-        vec = [None] * nslots(case)
-        for rec in recs[i:i + per]:
-            if rec[0] == "stamp":
-                vec[rec[1]] = num(rec[3])
-            elif rec[0] == "fields":
-                for j, v in enumerate(rec[3]):
-                    vec[rec[1] + j] = num(v)
-        out.append(vec)
-    return out
+    by_thread: dict = {}
+    done = []  # (position of the run's last record, vector)
+    for pos, rec in enumerate(recs):
+        cur = by_thread.setdefault(rec[4], [])
+        cur.append(rec)
+        if len(cur) == per:
+            vec = [None] * (nslots(case) + extra_slots)
+            for r in cur:
+                if r[0] in ("stamp", "draw"):
+                    vec[r[1]] = num(r[3])
+                elif r[0] == "fields":
+                    for j, v in enumerate(r[3]):
+                        vec[r[1] + j] = num(v)
+            done.append((pos, vec))
+            by_thread[rec[4]] = []
+    if any(by_thread.values()):
+        return {"ragged": len(recs)}
+    return [v for _, v in sorted(done, key=lambda t: t[0])]
 
 
 def run_impl(case, scheduler="synchronous", num_workers=None, delay_ms=0.0, with_dask=None, outputs_dir=None,
-             pipeline_seed=None, extra=None):
+             pipeline_seed=None, extra=None, extra_slots=0):
     """run the real Observation; returns {"dims", "entries", "exec"} or {"error", "msg"}"""
     import dask
     import obsprobes
@@ -479,8 +487,8 @@ def run_impl(case, scheduler="synchronous", num_workers=None, delay_ms=0.0, with
             with dask.config.set(**cfg):
                 dt = pyxel.run_mode(mode=obs, detector=det, pipeline=pipe,
                                     with_inherited_coords=bool(case.get("inherit")) or obs.with_dask)
-                out = extract_entries(find_bucket(dt), nslots(case))
-            out["exec"] = exec_log(case)
+                out = extract_entries(find_bucket(dt), nslots(case) + extra_slots)
+            out["exec"] = exec_log(case, extra_slots)
             if outputs is not None:
                 out["output_dir"] = str(outputs.current_output_folder)
             return out
@@ -616,6 +624,18 @@ def property_predicate(case, impl, parallel):
         if not ok:
             return (f"{tag}:label", f"entry labelled {e['labels']} holds data produced with "
                     f"{[spec_entry_values(case, r) for r in cands][:2]}")
+    # position labels (`<name>_id`, product mode, sequential path): the value coordinate `<name>` of the entry must
+    # be the declared value at that position
+    if case["mode"] == "product":
+        for e in impl["entries"]:
+            for k, v in e["labels"].items():
+                if k.endswith("_id") and k[:-3] in e["labels"]:
+                    pos = _decanon(v)
+                    want_v = e["labels"][k[:-3]]
+                    if not any(p.get("multi") and isinstance(pos, int) and 0 <= pos < len(p["expect"])
+                               and cv(p["expect"][pos]) == want_v for p in _unique_enabled(case)):
+                        return (f"{tag}:index-label", f"entry labelled {k}={pos} carries value {want_v}, which is not "
+                                "the value declared at that position")
     # executions on the sequential path: each element once
     if not parallel:
         ex = impl.get("exec")
@@ -677,7 +697,7 @@ def body(ck: common.Check):
     # directed stream: every mode × path × collision flavour at least once
     for mode in ("product", "sequential", "custom"):
         for wd in (False, True):
-            for flav in ("plain", "two_models_same_arg", "same_model_two_groups", "field_vs_arg"):
+            for flav in ("plain", "vectors", "two_models_same_arg", "same_model_two_groups", "field_vs_arg"):
                 cases.append(("directed", gen_case(rng, mode=mode, with_dask=wd, flavour=flav, max_runs=8)))
     for _ in range(40 if quick else 600):
         cases.append(("random", gen_case(rng, max_runs=12 if quick else 36)))
